@@ -181,5 +181,22 @@ def run(P: Program, R: Report, tier: str) -> None:
             enum = isinstance(lp.iter, ast.Call) and call_name(lp.iter) == "enumerate" and any(k.arg == "start" and norm(k.value) == "1" for k in lp.iter.keywords)
             okc = len(incs) == 1 or enum
         R.check(okc, "R19.2", g, g.node, "the label counter advances exactly once per component", "", via="syntax")
-        cut = any("remove_edges_from" in norm(s) or "remove_edge(" in norm(s) for s in ast.walk(g.node) if isinstance(s, ast.Call))
-        R.check(cut, "R19.2", g, g.node, "division edges are removed before components are taken", "", via="syntax")
+        # components are taken in a graph WITHOUT the edges that leave a dividing node: either they are removed from a copy,
+        # or a new graph is built from the edges whose source does not divide (here or in a helper the graph is passed to)
+        scope = [g]
+        for c_ in ast.walk(g.node):
+            if isinstance(c_, ast.Call) and isinstance(c_.func, ast.Name):
+                hq = P.resolve_name(g.module, c_.func.id)
+                if hq in P.functions and P.functions[hq] not in scope:
+                    scope.append(P.functions[hq])
+        cut = any("remove_edges_from" in norm(s_) or "remove_edge(" in norm(s_) for h_ in scope for s_ in ast.walk(h_.node) if isinstance(s_, ast.Call))
+        degree_based = any("out_degree" in norm(h_.node) for h_ in scope)
+        rebuilt = any(isinstance(s_, ast.Call) and call_name(s_) == "add_edges_from" and s_.args and isinstance(s_.args[0], (ast.GeneratorExp, ast.ListComp))
+                      and any("not in" in norm(i_) for i_ in s_.args[0].generators[0].ifs) for h_ in scope for s_ in ast.walk(h_.node))
+        if (cut or rebuilt) and degree_based:
+            R.ok("R19.2", g, g.node, "division edges are left out before components are taken", via="syntax")
+        elif not comp_loops or any("connected_components" in norm(x.iter) and norm(x.iter).count(g.params[0]) and "copy" not in norm(g.node) for x in comp_loops) and not (cut or rebuilt):
+            R.fail("R19.2", g, g.node, "division edges are left out before components are taken",
+                   "components are taken in the solution graph itself: both daughters of a division get their mother's label")
+        else:
+            R.undecided("R19.2", g, g.node, "division edges are left out before components are taken", "construction of the cut graph not recognised")
